@@ -135,8 +135,8 @@ func (e *env) runRaw(in RawInput) (RawObs, string) {
 	defer rawMu.Unlock()
 	var ob RawObs
 	sent := concatB(in.Segs)
+	seen := sent
 	if in.Transport == "udp" {
-		seen := sent
 		if in.Shared && in.Via == "server" && len(seen) > 1024 {
 			seen = seen[:1024] // what the service's one Read returns behind the peek wrapper
 		}
@@ -370,7 +370,7 @@ func (e *env) runRaw(in RawInput) (RawObs, string) {
 	ob.EvPayloadOK = true
 	if in.Svc == "dns-proxy" && in.Transport == "udp" && !ob.Parses {
 		for _, ev := range evs {
-			if ev.Get("payload") != string(sent) {
+			if ev.Get("payload") != string(seen) {
 				ob.EvPayloadOK = false
 			}
 		}
@@ -462,6 +462,8 @@ func genRawInputs(o hx.Opts, r *hx.Rand) []RawInput {
 		ins = append(ins, RawInput{Svc: "dns-proxy", Transport: "udp", Via: "server", Shared: true, Segs: []hx.B{q}, Reply: []hx.B{a}})
 		ins = append(ins, RawInput{Svc: "copy", Transport: "tcp", Via: "server", Shared: true, Segs: []hx.B{hx.B("first segment, "), hx.B("second")}, Reply: []hx.B{hx.B("ok")}})
 		ins = append(ins, RawInput{Svc: "copy", Transport: "udp", Via: "server", Shared: true, Segs: []hx.B{hx.B("datagram")}, Reply: []hx.B{hx.B("ok")}})
+		// known finding: a datagram beyond the server's 1024-byte peek, on the shared port
+		ins = append(ins, RawInput{Svc: "copy", Transport: "udp", Via: "server", Shared: true, Segs: []hx.B{hx.B(bytes.Repeat([]byte("0123456789abcdef"), 80))}, Reply: []hx.B{hx.B("ok")}})
 	}
 	n := 40
 	if o.Tier != "quick" {
